@@ -2,7 +2,7 @@
 import json
 from concurrent.futures import ProcessPoolExecutor
 
-from vlib import c09_build, c09_contracts as cc, c09_corr as cr, c09_handover, c09_tpl, configs, coqrun
+from vlib import c09_build, c09_contracts as cc, c09_corr as cr, c09_halt, c09_handover, c09_tpl, configs, coqrun
 from vlib.common import COQ
 
 LEVEL = "proof"
@@ -15,7 +15,13 @@ META = {
             "proved to compute enter/leave). Placement of the release on every exit path is checked per compiled function: "
             "the printed Venom runtime IR (after all passes) / linearised legacy IR is classified, turned into a CFG and "
             "checked by a Coq function proved sound (printed_function_exits_pass_unlock, accepted_exit_matches_leave: every "
-            "accepted exit leaves the cell as Lock.leave does). The model is validated against bytecode on pyrevm with a "
+            "accepted exit leaves the cell as Lock.leave does). Placement of the release relative to control hand-over points, "
+            "on every way out including the halting selfdestruct that bypasses the exit sequence, is checked the same way by "
+            "HaltCheck.hcheck_program (printed_function_no_handover_after_unlock: no call/staticcall/delegatecall/create/invoke "
+            "of a function that calls out between an unlock store and the way out, no way out with the lock held) on a family "
+            "of terminating statements whose operand expressions hand control over (selfdestruct / raw_revert / raise / "
+            "assert-reason / return x extcall / staticcall / internal function that calls out, sends or creates), which is "
+            "also executed on pyrevm with a re-entering attacker. The model is validated against bytecode on pyrevm with a "
             "scripted attacker: 14 entry kinds (incl. default-argument selectors, raw_call callbacks, library-module "
             "externals and @nonreentrant internals, constructor call-outs) x exit path x depth x re-entered kind, both "
             "protection styles, all configurations.",
@@ -26,8 +32,9 @@ META = {
     "technique": "Coq proof over call-tree model + template observation (O-tie) + verified CFG checker on real IR + EVM correspondence",
 }
 
-COQ_FILES = ["C09/Lock.v", "C09/LockProofs.v", "C09/LockTpl.v", "C09/ExitCheck.v", "C09/RichCfg.v", "C09/GenLock.v",
-             "C09/TieLock.v", "C09/PropsLock.v", "C09/PropsExit.v"]
+COQ_FILES = ["C09/Lock.v", "C09/LockProofs.v", "C09/LockTpl.v", "C09/ExitCheck.v", "C09/RichCfg.v",
+             "C09/HaltCheck.v", "C09/HaltProofs.v", "C09/PropsHalt.v",
+             "C09/GenLock.v", "C09/TieLock.v", "C09/PropsLock.v", "C09/PropsExit.v"]
 MAX_REPORTS = 3
 
 
@@ -47,12 +54,21 @@ def part_proofs(ctx):
     ctx.extra["template_samples"] = [list(map(str, r)) for r in raw[:2]]
     if any(k != 0 for k in real_keys.values()):
         ctx.log(f"note: lock slot allocated at {real_keys}")
-    b = ctx.coq_build(COQ_FILES)
+    # content-keyed reuse (README "Build reuse"): a file is recompiled unless its source, every file listed before it,
+    # Base/* and the Coq version are byte-identical to what produced its .vo; GenLock.v is regenerated above on every run
+    b = ctx.coq_build_cached(COQ_FILES)
     if b["ok"]:
         ctx.extra["syntactic_matches"] = fam
         return None
     return {"kind": "theorem-broken", "name": f"{b.get('failed_lemma')} in {b['file']}",
             "detail": {"theorem": b.get("failed_lemma"), "file": b["file"], "coq_output": b["out"][-1500:]}}
+
+
+def prebuild(ctx):
+    """setup_cmd: generate + compile once so that the first quick run reuses the proofs"""
+    text, _fam, _raw, _keys = c09_tpl.observe()
+    (COQ / "C09" / "GenLock.v").write_text(text)
+    ctx.coq_build_cached(COQ_FILES)
 
 
 def build_all(ctx, cfgs):
@@ -195,12 +211,23 @@ def run(ctx):
         d = rec.get("detail", {})
         if "scenario" in d:
             only = {"config": d["config"], "scenario": d["scenario"], "pragma_style": d["pragma_style"]}
+        elif "terminating_statement" in d:
+            # record of the terminator family (c09_halt): re-run that family under the recorded configuration only
+            allc = {c.name: c for c in configs.configs("thorough") + configs.configs("quick")}
+            pending = part_proofs(ctx)
+            found = c09_halt.part_halt(ctx, c09_halt.jobs_for([allc[d["config"]]] if d.get("config") in allc else configs.configs(ctx.tier),
+                                                              pragma=bool(d.get("pragma_style"))))
+            if pending is not None and not found:
+                ctx.violation(pending["kind"], pending["name"], pending["detail"])
+            return
     import time as _t
     pending = part_proofs(ctx)
     ctx.log(f"proofs + template tie at {_t.time() - ctx.t0:.0f}s")
     cfgs = configs.configs(ctx.tier)
     if only:
         cfgs = [c for c in cfgs if c.name == only["config"]] or cfgs
+    hjobs = c09_halt.jobs_for(cfgs, ctx.seed)
+    launched = None if only else c09_halt.launch(hjobs)     # runs alongside the parts below, collected at the end
     jobs, res, atts = build_all(ctx, cfgs)
     ctx.log(f"compiled at {_t.time() - ctx.t0:.0f}s")
     exit_fail = part_exits(ctx, jobs, res)
@@ -212,6 +239,8 @@ def run(ctx):
         ctx.log(f"hand-over family at {_t.time() - ctx.t0:.0f}s")
         found = c09_handover.part_getters(ctx, cfgs) or found
         ctx.log(f"getter family at {_t.time() - ctx.t0:.0f}s")
+        found = c09_halt.part_halt(ctx, hjobs, found, launched) or found
+        ctx.log(f"terminator family at {_t.time() - ctx.t0:.0f}s")
     # verdicts for proof / placement breaks: Search = the correspondence above
     if pending is not None and not found:
         ctx.violation(pending["kind"], pending["name"], pending["detail"])
@@ -221,7 +250,8 @@ def run(ctx):
                           {"config": f[0], "pragma_style": f[1], "what": f[2], "source": cc.victim_source(f[1])})
     ctx.corr["exit_check_failures"] = len(exit_fail)
     ctx.trusted += ["Coq 8.16.1 kernel + vm_compute", "tools/vlib/c09_tpl.py (template printer)",
-                    "tools/vlib/c09_cfg.py (CFG export: opcode classes, edges, legacy IR linearisation)",
+                    "tools/vlib/c09_cfg.py, c09_halt.py (CFG export: opcode classes, edges, legacy IR linearisation incl. the position of "
+                    "call/create instructions in evaluation order)",
                     "pyrevm as EVM; attacker contract compiled by the legacy pipeline at -O gas"]
     ctx.assumptions += ["stores with non-literal keys do not address the lock slot (C10)",
                         "unprotected code never writes the lock cell (C10: no aliasing of state variables with the lock slot)"]
